@@ -19,7 +19,9 @@ EXPLANATION = (
     "closed-form cell function (map rule), so 'each value lands in the slot of its own name, everything else is the default' is proved for "
     "all sizes. The renaming/ordering clause is a lemma over those contracts: every layout statement is by name, hence invariant "
     "under any injective renaming (two symbolic layouts related by a renaming), and the model/filter outputs are by-name statements "
-    "of C01/C03/C04/C05. The C++ accessor/constructor half is C02's generator contract."
+    "of C01/C03/C04/C05. C++ half, for all programs: the generator's layout fragments (Options structs, accessor pairs, Options constructors; "
+    "ast_fragments.py) are executed with symbolic layouts and proved to put options.<name> into the slot <name>() reads (contracts/cppfragments.py); how the "
+    "nodes are printed is validated per program by C02."
 )
 ASSUMPTIONS = [
     "D-np: np.zeros / np.eye / cell stores (numpy model)",
